@@ -259,7 +259,7 @@ Lemma a_recv_wait s id r1 rs' : a_pt s = PWait id -> a_s2c s = r1 :: rs' ->
 Proof. destruct s; cbn; intros -> ->; cbn. unfold client; cbn. rewrite app_nil_r. reflexivity. Qed.
 
 Ltac destr_rel HR :=
-  destruct HR as [Hh Hclient Hspawned Heof Hrerr Hwfail Hhandle Hwp Hwh Hevq Hcf Hpt Hqueue Hcallers Hreqs
+  destruct HR as [Hh Hclient Hfailed Hspawned Heof Hrerr Hwfail Hhandle Hwp Hwh Hevq Hcf Hpt Hqueue Hcallers Hreqs
                   Hc2s Hwrites Hidle Hpending Hpwf Hlist Hviol Hreported Hs2cwf Hs2c].
 
 Lemma concat_snoc (l : list bytes) (u : bytes) : concat (l ++ [u]) = concat l ++ u.
@@ -534,34 +534,90 @@ Ltac compute_eqb :=
            let v := eval vm_compute in (N.eqb (Npos a) (Npos c)) in change (N.eqb (Npos a) (Npos c)) with v
          end.
 
+(* the full result of apply_label_g on a label of the fragment *)
+Definition sem3 (x : xsys) (lab : bytes) (gl : glabel) : option bytes * xsys * option seg :=
+  match gl with
+  | GNotify n => let '(st, out) := snotify (x_srv x) n in (None, set_net x st (x_c2s x) (x_s2c x ++ out), None)
+  | GServe all => (None, DriverLoop.serve (S (length (x_c2s x))) all x, None)
+  | GDeliver id =>
+    let k := if id =? 0 then length (x_s2c x) else N.to_nat id in
+    let chunk := if x_eof x then [] else firstn k (x_s2c x) in
+    match chunk with
+    | [] => (None, x, None)
+    | _ => let x1 := set_net x (x_srv x) (x_c2s x) (skipn k (x_s2c x)) in
+           let '(x2, g2) := settle 4000 (set_conn x1 (x_buf x1) (x_bst x1) (x_inbox x1 ++ chunk)) seg0 in
+           (Some (b "d:" ++ hex chunk), x2, Some g2)
+    end
+  | GTick ms =>
+    let '(x2, g2) := settle 4000 (set_pt x (x_pt x) (match x_pt x with PWindow => x_elapsed x + ms | _ => x_elapsed x end)) seg0 in
+    (Some lab, x2, Some g2)
+  | GIssue id l =>
+    let '(x1, g1) := issue_line x id l in
+    let '(x2, g2) := settle 4000 x1 g1 in (Some lab, x2, Some g2)
+  end.
+
+Ltac known_kind E kind :=
+  apply N.eqb_eq in E; subst kind.
+
 Ltac classify_chain kind :=
   let H := fresh "H" in
   destruct (kind =? 78) eqn:E78;
-  [ intros H; inversion H; subst; unfold sem; destruct (snotify _ _); split; reflexivity |];
+  [ known_kind E78 kind; intros H; inversion H; subst; unfold apply_core, sem3; compute_eqb; cbv beta zeta iota; reflexivity |];
   destruct (kind =? 83) eqn:E83;
-  [ intros H; inversion H; subst; unfold sem; split; reflexivity |];
+  [ known_kind E83 kind; intros H; inversion H; subst; unfold apply_core, sem3; compute_eqb; cbv beta zeta iota; reflexivity |];
   destruct (kind =? 68) eqn:E68;
-  [ intros H; inversion H; subst; unfold sem, run_op; cbv zeta;
-    match goal with |- context [match ?c with [] => _ | _ :: _ => _ end] => destruct c end;
-    [split; reflexivity | destruct (settle _ _ _); split; reflexivity] |];
+  [ known_kind E68 kind; intros H; inversion H; subst; unfold apply_core, sem3; compute_eqb; cbv beta zeta iota; reflexivity |];
   destruct (kind =? 116) eqn:E116;
-  [ apply N.eqb_eq in E116; subst kind; intros H; inversion H; subst; compute_eqb; cbv iota;
-    unfold sem, run_op; destruct (settle _ _ _); split; reflexivity |];
+  [ known_kind E116 kind; intros H; inversion H; subst; unfold apply_core, sem3; compute_eqb; cbv beta zeta iota; reflexivity |];
   destruct (kind =? 99) eqn:E99; [|discriminate];
-  apply N.eqb_eq in E99; subst kind; unfold issue, sem, issue_line, run_op; cbn [existsb]; compute_eqb; cbn [orb]; cbv iota;
+  known_kind E99 kind; unfold apply_core, issue, sem3, issue_line; cbn [existsb]; compute_eqb; cbn [orb]; cbv beta zeta iota;
   match goal with |- context [all_some_l ?m] => destruct (all_some_l m) as [[|l0 ls0]|] end; try discriminate;
-  intros H; inversion H; subst; cbn [render_list];
-  destruct (negb _); [destruct (settle _ _ _); split; reflexivity|];
-  destruct (loop_alive _); destruct (settle _ _ _); split; reflexivity.
+  intros H; inversion H; subst; cbn [render_list]; cbv beta zeta;
+  destruct (negb _); [reflexivity|]; destruct (loop_alive _); reflexivity.
 
-Lemma classify_sem x lab gl : classify lab = Some gl ->
-  snd (fst (apply_label_g x lab)) = fst (sem x gl) /\ snd (apply_label_g x lab) = snd (sem x gl).
+(* the part of classify after the label is split at ':' *)
+Definition classify_core (kind : N) (idtxt arg : bytes) : option glabel :=
+  let id := read_N idtxt in
+  if kind =? 78 then Some (GNotify (unhex arg))
+  else if kind =? 83 then Some (GServe (beq idtxt [42]))
+  else if kind =? 68 then Some (GDeliver id)
+  else if kind =? 116 then Some (GTick id)
+  else if kind =? 99 then
+    match all_some_l (map parse_spec (split_specs arg)) with
+    | Some (l :: _) => Some (GIssue id l)
+    | _ => None
+    end
+  else None.
+
+Lemma core_sem3 x lab gl kind idtxt arg :
+  classify_core kind idtxt arg = Some gl -> apply_core x lab kind idtxt arg = sem3 x lab gl.
+Proof. unfold classify_core. cbv beta zeta. classify_chain kind. Qed.
+
+Lemma classify_sem3 x lab gl : classify lab = Some gl -> apply_label_g x lab = sem3 x lab gl.
 Proof.
   unfold classify, apply_label_g, label_parts.
-  destruct (split_on 58 lab) as [|h [|a t]]; try discriminate.
-  - destruct h as [|kind idtxt]; [discriminate|]. classify_chain kind.
-  - destruct h as [|kind idtxt]; [discriminate|]. classify_chain kind.
+  destruct (split_on 58 lab) as [|h [|a t]]; try discriminate;
+    (destruct h as [|kind idtxt]; [discriminate|]; apply core_sem3).
 Qed.
+
+Lemma sem3_sem x lab gl :
+  snd (fst (sem3 x lab gl)) = fst (sem x gl) /\ snd (sem3 x lab gl) = snd (sem x gl) /\
+  match snd (sem3 x lab gl), fst (fst (sem3 x lab gl)) with Some _, None => False | _, _ => True end.
+Proof.
+  destruct gl as [id l|n|all|k|ms]; unfold sem3, sem, run_op.
+  - destruct (issue_line x id l) as [x1 g1]. destruct (settle 4000 x1 g1). repeat split.
+  - destruct (snotify _ _). repeat split.
+  - repeat split.
+  - cbv zeta. match goal with |- context [match ?c with [] => _ | _ :: _ => _ end] => destruct c end.
+    + repeat split.
+    + destruct (settle _ _ _). repeat split.
+  - destruct (settle _ _ _). repeat split.
+Qed.
+
+Lemma classify_sem x lab gl : classify lab = Some gl ->
+  snd (fst (apply_label_g x lab)) = fst (sem x gl) /\ snd (apply_label_g x lab) = snd (sem x gl) /\
+  match snd (apply_label_g x lab), fst (fst (apply_label_g x lab)) with Some _, None => False | _, _ => True end.
+Proof. intros CL. rewrite (classify_sem3 x lab gl CL). apply sem3_sem. Qed.
 
 (* ---------- the server side ---------- *)
 
@@ -843,7 +899,7 @@ Proof.
     split; [constructor|]. split; [reflexivity|]. split; [exact HR|]. split; [exact HI|]. repeat split; auto.
   - inversion F2 as [|lab' gl labs' gls' CL F2' E1 E2]. subst gls. clear F2.
     pose proof (Forall_inv FG) as G. pose proof (Forall_inv_tail FG) as FG'. cbn beta in G.
-    destruct (classify_sem x lab gl CL) as [EX EG].
+    destruct (classify_sem x lab gl CL) as [EX [EG OP]].
     pose proof (sem_sim x s gl HR HI G) as LP. rewrite <- EX, <- EG in LP.
     cbn [xrun]. destruct (apply_label_g x lab) as [[op x1] og]. cbn [fst snd] in LP.
     destruct LP as [sch [nr [ne [WF [IQ [HR1 [HI1 [ER [ED GE]]]]]]]]].
@@ -874,9 +930,219 @@ Proof.
   - exists []. split; [intro z; reflexivity|reflexivity].
 Qed.
 
+(* the text run_labels prints is the rendering of the structured segments *)
+Lemma show_seg_alive x s g : Rel x s -> Inv s -> show_seg x g = (seg_text g, x).
+Proof.
+  intros HR HI. unfold show_seg, seg_text.
+  rewrite (r_spawned _ _ _ HR), (r_pt _ _ _ HR), (r_failed _ _ _ HR), (r_client _ _ _ HR), (r_handle _ _ _ HR).
+  assert (NE : match a_pt s with PExited => true | _ => false end = false).
+  { destruct HI as [SH _]. unfold shape in SH. destruct (a_pt s); try reflexivity. contradiction. }
+  rewrite NE. cbn [andb orb negb app]. reflexivity.
+Qed.
+
+Lemma run_labels_cons x l r ops segs :
+  run_labels x (l :: r) ops segs =
+  match apply_label x l with
+  | (Some op, x', Some txt) => run_labels x' r (ops ++ [op]) (segs ++ [txt])
+  | (_, x', _) => run_labels x' r (ops ++ [[45]]) segs
+  end.
+Proof. reflexivity. Qed.
+
+Lemma xrun_cons x l r :
+  xrun x (l :: r) =
+  match apply_label_g x l with
+  | (_, x', Some g) => let '(xf, gs) := xrun x' r in (xf, g :: gs)
+  | (_, x', None) => xrun x' r
+  end.
+Proof. reflexivity. Qed.
+
+Lemma run_labels_sim : forall labs gls x s ops segs,
+  Forall2 (fun lab gl => classify lab = Some gl) labs gls -> Forall (fun gl => good cf gl = true) gls ->
+  Rel x s -> Inv s ->
+  snd (run_labels x labs ops segs) = segs ++ map seg_text (snd (xrun x labs)).
+Proof.
+  induction labs as [|lab labs IH]; intros gls x s ops segs F2 FG HR HI.
+  - cbn. rewrite app_nil_r. reflexivity.
+  - inversion F2 as [|lab' gl labs' gls' CL F2' E1 E2]. subst gls. clear F2.
+    pose proof (Forall_inv FG) as G. pose proof (Forall_inv_tail FG) as FG'. cbn beta in G.
+    destruct (classify_sem x lab gl CL) as [EX [EG OP]].
+    pose proof (sem_sim x s gl HR HI G) as LP. rewrite <- EX, <- EG in LP.
+    rewrite run_labels_cons, xrun_cons. unfold apply_label. destruct (apply_label_g x lab) as [[op x1] og]. cbn [fst snd] in LP.
+    destruct LP as [sch [nr [ne [WF [IQ [HR1 [HI1 _]]]]]]].
+    destruct og as [g|].
+    + destruct op as [op|].
+      * rewrite (show_seg_alive x1 _ g HR1 HI1).
+        rewrite (IH gls' x1 _ (ops ++ [op]) (segs ++ [seg_text g]) F2' FG' HR1 HI1).
+        destruct (xrun x1 labs) as [xf gs]. cbn [snd map]. rewrite <- app_assoc. reflexivity.
+      * cbn [fst snd] in OP. contradiction.
+    + destruct op; apply (IH gls' x1 _ _ _ F2' FG' HR1 HI1).
+Qed.
+
 Theorem exec_refines labs gls :
   Forall2 (fun lab gl => classify lab = Some gl) labs gls -> Forall (fun gl => good cf gl = true) gls ->
   run_rel a0 gls (fst (xrun (xinit cf) labs)) (snd (xrun (xinit cf) labs)).
 Proof. intros F2 FG. apply (xrun_sim labs gls); [exact F2|exact FG|exact rel_init|apply inv0]. Qed.
 
 End Sim.
+
+(* ---------- what the abstract theorems say about the executable system ---------- *)
+
+Lemma apply_outs_issued outs : forall s, a_issued (apply_outs s outs) = a_issued s.
+Proof.
+  induction outs as [|o outs IH]; intros s; cbn [apply_outs]; [reflexivity|].
+  rewrite IH. destruct o as [bs|id r|id|n|k|]; try reflexivity. destruct r; reflexivity.
+Qed.
+
+Lemma client_issued s i : a_issued (client s i) = a_issued s.
+Proof. unfold client. destruct (cstep false (a_pt s) i) as [p outs]. rewrite apply_outs_issued. reflexivity. Qed.
+
+Lemma astep_issued s l : a_issued (LoopSpec.astep echo_reply s l) = a_issued s ++ issued_in [l].
+Proof.
+  destruct l as [q| | | | |n]; cbn [issued_in flat_map app]; rewrite ?app_nil_r.
+  - reflexivity.
+  - cbn [LoopSpec.astep]. destruct (a_queue s); [reflexivity|]. destruct (wants_cmd _); [|reflexivity].
+    rewrite client_issued. reflexivity.
+  - cbn [LoopSpec.astep]. destruct (a_s2c s); [reflexivity|]. destruct (wants_recv _); [|reflexivity].
+    rewrite client_issued. reflexivity.
+  - cbn [LoopSpec.astep]. destruct (a_pt s); try reflexivity. rewrite client_issued. reflexivity.
+  - cbn [LoopSpec.astep]. unfold LoopSpec.serve. destruct (a_c2s s); [reflexivity|].
+    destruct (a_idle s); [destruct (beq _ _); reflexivity|].
+    destruct (beq _ idle_line); [destruct (a_pending s); reflexivity|]. destruct (beq _ noidle_line); reflexivity.
+  - cbn [LoopSpec.astep]. destruct (a_idle s); reflexivity.
+Qed.
+
+Lemma issued_fold sch : forall s, a_issued (fold_left (LoopSpec.astep echo_reply) sch s) = a_issued s ++ issued_in sch.
+Proof.
+  induction sch as [|l sch IH]; intros s; cbn [fold_left].
+  - cbn. rewrite app_nil_r. reflexivity.
+  - rewrite IH, astep_issued, <- app_assoc. change (l :: sch) with ([l] ++ sch). rewrite issued_in_app. reflexivity.
+Qed.
+
+Lemma prefix_firstn {A} (p r : list A) : p = firstn (length p) (p ++ r).
+Proof. rewrite firstn_app, Nat.sub_diag, firstn_all. cbn. rewrite app_nil_r. reflexivity. Qed.
+
+(* what a caller sees for an echo request *)
+Definition echo_result (q : request) : N * bytes :=
+  (q_id q, show_cmd_result (CROk [mkFrame [(b "line", removelast (q_bytes q))] None])).
+
+Theorem exec_session cf labs gls :
+  Forall2 (fun lab gl => classify lab = Some gl) labs gls -> Forall (fun gl => good cf gl = true) gls ->
+  let xf := fst (xrun (xinit cf) labs) in
+  let segs := snd (xrun (xinit cf) labs) in
+  (* C05: the simulated server never saw anything but noidle while idling *)
+  s_violated (x_srv xf) = false /\
+  (* C01: the results handed to the callers, in the order they were handed out, are the echoes of a
+     prefix of the requests in issue order: each caller got the reply to its own request *)
+  (exists k, flat_map g_res segs = map echo_result (firstn k (flat_map issued_of gls))) /\
+  (* C04: the events handed to the application are, in order, a prefix of the names the server wrote *)
+  (exists ne rest, flat_map g_ev segs = map ev_text ne /\ ne ++ rest = s_reported (x_srv xf)) /\
+  (* no step panics and the fuel of settle is never exhausted *)
+  Forall (fun g => g_panic g = false) segs.
+Proof.
+  intros F2 FG xf segs.
+  destruct (exec_refines cf labs gls F2 FG) as [sch [nr [ne [WF [IQ [HR [HI [ER [ED [RS [EV PN]]]]]]]]]]].
+  fold xf in HR. fold segs in RS, EV, PN. set (sf := fold_left (LoopSpec.astep echo_reply) sch a0) in *.
+  cbn [a0 a_replies a_delivered app] in ER, ED.
+  assert (H2 : Inv2 echo_reply sf) by (apply inv2_fold; [exact WF|apply inv0|apply inv2_0]).
+  pose proof HI as HI'. destruct HI' as (SH & VI & _ & _ & EO & FF & _).
+  assert (ISS : a_issued sf = flat_map issued_of gls).
+  { unfold sf. rewrite issued_fold. cbn [a0 a_issued app]. exact IQ. }
+  split; [rewrite (r_violated _ _ _ HR); exact VI|]. split; [|split; [|exact PN]].
+  - assert (PRE : exists pre rest, a_replies sf = map (LoopSpecProofs.R echo_reply) pre /\ a_issued sf = pre ++ rest).
+    { unfold Inv2 in H2. destruct (a_pt sf) eqn:EP;
+        try (exists (a_sent sf), (held (a_pt sf) ++ a_queue sf); split; [exact H2|symmetry; rewrite EP in *; exact FF]).
+      destruct H2 as [pre [q [E1 [_ [E2 _]]]]]. exists pre, ([q] ++ held (PWait id) ++ a_queue sf).
+      split; [exact E2|]. rewrite <- FF, E1, <- app_assoc. reflexivity. }
+    destruct PRE as [pre [rest [E1 E2]]]. exists (length pre).
+    rewrite <- ISS, E2, <- prefix_firstn. rewrite RS, <- ER, E1, map_map. reflexivity.
+  - exists ne, (flat_map names_of (a_s2c sf)). split; [exact EV|].
+    rewrite (r_reported _ _ _ HR), <- EO, ED. reflexivity.
+Qed.
+
+(* ---------- the printed trace ---------- *)
+
+(* the segment the replayer shows when the greeting arrives *)
+Definition greet_op : bytes := b "d:" ++ hex greeting_bytes.
+Definition greet_text : bytes := b "[w:" ++ hex idle_line ++ b ";conn=ok:" ++ hex (b "0.23.5") ++ b "]".
+
+Lemma start_d0 cf : apply_label (xstart cf) (b "D0") = (Some greet_op, xinit cf, Some greet_text).
+Proof. vm_compute. reflexivity. Qed.
+
+(* [run_loopm] prints [words (snd (run_labels ...))]: the segments the real client's trace is compared with are
+   the renderings of the structured segments the theorems speak about *)
+Theorem loopm_segments cf labs gls t0 :
+  Forall2 (fun lab gl => classify lab = Some gl) labs gls -> Forall (fun gl => good cf gl = true) gls ->
+  snd (run_labels (xstart cf) (b "D0" :: labs) [] [t0]) =
+  [t0; greet_text] ++ map seg_text (snd (xrun (xinit cf) labs)).
+Proof.
+  intros F2 FG. rewrite run_labels_cons, start_d0.
+  rewrite (run_labels_sim cf labs gls (xinit cf) a0 _ _ F2 FG (rel_init cf) (inv0 echo_reply)). reflexivity.
+Qed.
+
+(* ---------- non-vacuity: a concrete session of the fragment ---------- *)
+
+Definition ex_cf : sconf := mkSConf None None None false 8192 [] false None.
+
+Definition ex_labs : list bytes :=
+  [b "N:706c61796572"; b "c1:status"; b "S*"; b "D3"; b "D0"; b "c2:stats"; b "t40"; b "S"; b "S"; b "D0";
+   b "N:6d69786572"; b "t100"; b "S*"; b "D0"; b "c3:currentsong"; b "S*"; b "D0"; b "t100"; b "S*"; b "D0"].
+
+Definition ex_gls : list glabel :=
+  [GNotify (b "player"); GIssue 1 (b "status"); GServe true; GDeliver 3; GDeliver 0; GIssue 2 (b "stats"); GTick 40;
+   GServe false; GServe false; GDeliver 0; GNotify (b "mixer"); GTick 100; GServe true; GDeliver 0;
+   GIssue 3 (b "currentsong"); GServe true; GDeliver 0; GTick 100; GServe true; GDeliver 0].
+
+Lemma forall2_map {A B} (f : A -> option B) l m : map f l = map Some m -> Forall2 (fun a c => f a = Some c) l m.
+Proof.
+  revert m. induction l as [|a l IH]; intros [|c m] H; try discriminate; constructor.
+  - cbn in H. inversion H. reflexivity.
+  - apply IH. cbn in H. inversion H. reflexivity.
+Qed.
+
+Example ex_in_fragment :
+  Forall2 (fun lab gl => classify lab = Some gl) ex_labs ex_gls /\ Forall (fun gl => good ex_cf gl = true) ex_gls.
+Proof.
+  split; [apply forall2_map; vm_compute; reflexivity|].
+  apply Forall_forall. apply forallb_forall. vm_compute. reflexivity.
+Qed.
+
+(* ... in which all three requests are answered and both changes are delivered *)
+Example ex_outcome :
+  flat_map g_res (snd (xrun (xinit ex_cf) ex_labs)) =
+    map echo_result [mkReq 1 (b "status" ++ [LF]); mkReq 2 (b "stats" ++ [LF]); mkReq 3 (b "currentsong" ++ [LF])] /\
+  flat_map g_ev (snd (xrun (xinit ex_cf) ex_labs)) = map ev_text [b "player"; b "mixer"].
+Proof. split; vm_compute; reflexivity. Qed.
+
+(* ---------- the parts of exec_session, one by one ---------- *)
+
+Definition in_fragment (cf : sconf) (labs : list bytes) (gls : list glabel) : Prop :=
+  Forall2 (fun lab gl => classify lab = Some gl) labs gls /\ Forall (fun gl => good cf gl = true) gls.
+
+Lemma exec_never_violated cf labs gls : in_fragment cf labs gls ->
+  s_violated (x_srv (fst (xrun (xinit cf) labs))) = false.
+Proof. intros [F G]. exact (proj1 (exec_session cf labs gls F G)). Qed.
+
+Lemma exec_own_replies cf labs gls : in_fragment cf labs gls ->
+  exists k, flat_map g_res (snd (xrun (xinit cf) labs)) = map echo_result (firstn k (flat_map issued_of gls)).
+Proof. intros [F G]. exact (proj1 (proj2 (exec_session cf labs gls F G))). Qed.
+
+Lemma exec_events cf labs gls : in_fragment cf labs gls ->
+  exists ne rest, flat_map g_ev (snd (xrun (xinit cf) labs)) = map ev_text ne /\
+                  ne ++ rest = s_reported (x_srv (fst (xrun (xinit cf) labs))).
+Proof. intros [F G]. exact (proj1 (proj2 (proj2 (exec_session cf labs gls F G)))). Qed.
+
+Lemma exec_no_panic cf labs gls : in_fragment cf labs gls ->
+  Forall (fun g => g_panic g = false) (snd (xrun (xinit cf) labs)).
+Proof. intros [F G]. exact (proj2 (proj2 (proj2 (exec_session cf labs gls F G)))). Qed.
+
+Lemma exec_refines_abstract cf labs gls : in_fragment cf labs gls ->
+  run_rel cf a0 gls (fst (xrun (xinit cf) labs)) (snd (xrun (xinit cf) labs)).
+Proof. intros [F G]. exact (exec_refines cf labs gls F G). Qed.
+
+Lemma exec_trace_text cf labs gls t0 : in_fragment cf labs gls ->
+  snd (run_labels (xstart cf) (b "D0" :: labs) [] [t0]) =
+  [t0; greet_text] ++ map seg_text (snd (xrun (xinit cf) labs)).
+Proof. intros [F G]. exact (loopm_segments cf labs gls t0 F G). Qed.
+
+Lemma ex_fragment : in_fragment ex_cf ex_labs ex_gls.
+Proof. exact ex_in_fragment. Qed.
